@@ -827,9 +827,10 @@ class resolution_macro(Macro):
             disj1, disj2 = disj2, disj1
             i, j = j, i
         
-        # Move items i and j to the front
-        disj1 = [disj1[i]] + disj1[:i] + disj1[i+1:]
-        disj2 = [disj2[j]] + disj2[:j] + disj2[j+1:]
+        # Move items i and j to the front. Further copies of the two literals are
+        # dropped: A | A | B and ~A | C resolve to B | C, not to A | B | C.
+        disj1 = [disj1[i]] + [t for t in disj1 if t != disj1[i]]
+        disj2 = [disj2[j]] + [t for t in disj2 if t != disj2[j]]
         eq_pt1 = imp_disj_iff(Eq(pt1.prop, Or(*disj1)))
         eq_pt2 = imp_disj_iff(Eq(pt2.prop, Or(*disj2)))
         pt1 = eq_pt1.equal_elim(pt1)
